@@ -206,5 +206,26 @@ def run(chk):
     bp = chk.fn(VIS, "buildPrintedResults")
     calls = [x for x in ast.walk(bp) if isinstance(x, ast.Call) and norm(x.func) == fn.name]
     ok = len(calls) == 1 and [norm(a) for a in calls[0].args][2:] == [a.arg for a in bp.args.args][2:4]
+    # the set handed over for an alternative winner is built afresh for it: all candidates minus that winner
+    ok_set = False
+    detail = {}
+    if len(calls) == 1:
+        loop = next((a for a in ancestors(calls[0]) if isinstance(a, ast.For)), None)
+        a1 = calls[0].args[1] if len(calls[0].args) > 1 else None
+        a0 = norm(calls[0].args[0]) if calls[0].args else None
+        if loop is not None and isinstance(a1, ast.Name):
+            sname = a1.id
+            inside = [st for st in loop.body if isinstance(st, ast.Assign) and norm(st.targets[0]) == sname]
+            outside = [st for st in bp.body if isinstance(st, ast.Assign) and norm(st.targets[0]) == sname]
+            adds = [c for c in walk_local(loop) if isinstance(c, ast.Call) and norm(c.func) == f"{sname}.add"]
+            rems = [c for c in walk_local(loop) if isinstance(c, ast.Call) and norm(c.func) in (f"{sname}.remove", f"{sname}.discard")]
+            detail = dict(built_in_loop=[norm(x)[:80] for x in inside], built_outside=[norm(x)[:80] for x in outside])
+            fresh = len(inside) == 1 and not outside and norm(inside[0].value).startswith("set(") and inside[0].lineno < calls[0].lineno
+            ok_set = fresh and len(adds) == 1 and norm(adds[0].args[0]) == bp.args.args[0].arg and len(rems) == 1 and norm(rems[0].args[0]) == a0 \
+                and all(x.lineno < calls[0].lineno for x in adds + rems)
+    chk.ob("C20.R5", f"{VIS}:buildPrintedResults", "fresh-candidate-set-per-alternative-winner", ok_set,
+           "for every alternative winner the tree is built over a set created afresh inside the loop: all non-winners plus the apparent "
+           "winner, minus exactly that alternative winner (a set shared across iterations would lose the earlier alternative winners)",
+           node=bp, strength="N", **detail)
     chk.ob("C20.R5", f"{VIS}:buildPrintedResults", "driver-passes-assertions", ok,
            "the tree for each alternative winner is built with the full assertion lists", node=bp, strength="N")
